@@ -2,7 +2,7 @@
    frames out with times, ARP responders, live-binding snapshots).  They are evaluated by the extracted
    code on what the implementation did.  Written against the wire format only: frames are parsed with the
    decoders whose agreement with the RFC grammar is proved in C12/C13. *)
-From PSA Require Import gen.GoFacts model.Bytes model.Layer model.Dhcp model.Clients model.Ipdb model.IpdbCheck model.Server.
+From PSA Require Import gen.GoFacts model.Bytes model.Layer model.Dhcp model.Clients model.Ipdb model.IpdbCheck model.Server spec.SpecCodec.
 Open Scope N_scope.
 
 Record pin := { pi_src : N; pi_dst : N; pi_msg : dhcp_msg; pi_opt : decoded_options }.
@@ -231,6 +231,8 @@ Definition c06_round (c : scfg) (r : round) : bool :=
     match parse_in (r_pkt r), parse_out f with
     | Some i, Some p =>
       let m := po_msg p in
+      (* it "travels": a header checksum that verifies and a UDP checksum that verifies or is absent (RFC 791 / 768) *)
+      ipv4_hdr_ok (of_pkt f) && udp_ok (po_ipsrc p) (po_ipdst p) (skipn 20 (of_pkt f)) &&
       (po_proto p =? 17) && (po_ipsrc p =? c_self_ip c) && (po_sport p =? 67) && (po_dport p =? 68) && (d_op m =? 2) &&
       (d_xid m =? d_xid (pi_msg i)) && bytes_eqb (d_chaddr m) (d_chaddr (pi_msg i)) && opt_eqb (o_sid (po_opt p)) (Some (c_self_ip c)) &&
       (if is_lease_reply p then
